@@ -676,7 +676,7 @@ def check_rh_emit(ctx, led, v, rule="C12.emit"):
         if not head_ok and isinstance(head, App) and head.op == "str" and score0 is not None:
             # str() of the Decimal base score itself prints the same text as str(float(...)) when the
             # Decimal is quantised to one decimal (C09.quantised): "7.5", "10.0", "0.0"
-            from .rules_sev import is_quantised
+            from .rules_sev import prints_one_decimal
 
             s0 = cn(score0 if isinstance(score0, P) else om.ev.to_poly(st, score0, None))
             inner = None
@@ -685,7 +685,7 @@ def check_rh_emit(ctx, led, v, rule="C12.emit"):
                 if coef == 1 and len(mono) == 1 and mono[0][1] == 1 and isinstance(mono[0][0], App) and mono[0][0].op == "float":
                     inner = mono[0][0].args[0]
             got = cn(head.args[0]) if isinstance(head.args[0], Term) else None
-            if inner is not None and got is not None and cn(inner) == got and is_quantised(got):
+            if inner is not None and got is not None and cn(inner) == got and prints_one_decimal(head.args[0]):  # on the value graph as built: spellings of literals are still attached
                 head_ok = True
         ok = head_ok and cn(got_rest) == cn(exp_rest)
         if not head_ok:
